@@ -869,8 +869,20 @@ class Intervals:
     # ---- driver
     MAXDISJ = 6
 
-    def _join_states(self, a, b, widen_it=False):
+    def _join_states(self, a, b, widen_it=False, materialise=False):
         a, b = dict(a), dict(b)
+        if materialise:
+            # at a loop head: difference bounds that both sides imply through their intervals only (x <= hi, y >= lo) would be
+            # lost by the interval join; make them explicit for the variables whose intervals differ
+            ch = [k for k in set(a) & set(b) if not self._is_rel(k) and not self._is_diff(k) and a[k] != b[k]]
+            if len(ch) <= 8:
+                for x in ch:
+                    for y in ch:
+                        if x != y and ("rel", x, y) not in a and ("rel", x, y) not in b:
+                            ca, cb = self.rel(a, x, y), self.rel(b, x, y)
+                            if ca is not None and cb is not None and max(ca, cb) <= 1:
+                                a[("rel", x, y)] = ca
+                                b[("rel", x, y)] = cb
         self._complete_rels(a, b)
         new = {}
         for kk in set(a) & set(b):
@@ -993,7 +1005,7 @@ class Intervals:
                 if self._leq(ns, old):
                     continue
                 visits[(s, sg)] = visits.get((s, sg), 0) + 1
-                merged = self._join_states(old, ns, widen_it=s in wpoints and visits[(s, sg)] > WIDEN_AFTER)
+                merged = self._join_states(old, ns, widen_it=s in wpoints and visits[(s, sg)] > WIDEN_AFTER, materialise=s in wpoints)
                 if merged != old:
                     part[sg] = merged
                     work.append((s, sg))
